@@ -35,7 +35,8 @@ def main(path):
         print('no failing input recorded (no-failing-input-found): nothing to replay natively')
         return 0
     for f in fi:
-        code, out = W.replay(f['family'], f.get('cfg', 0), f.get('cap', 0), f['input_hex'], (f.get('backends') or ['default'])[0])
+        code, out = W.replay(f['family'], f.get('cfg', 0), f.get('cap', 0), f['input_hex'], (f.get('backends') or ['default'])[0],
+                             (f.get('history_hex'), f.get('history_cfg', 0), f.get('history_uninit', 0)) if 'history_hex' in f else None)
         print('--- replay family=%s cfg=%s cap=%s back-end build=%s input=%s' % (f['family'], f.get('cfg'), f.get('cap'), (f.get('backends') or ['default'])[0], f.get('input')))
         print(out.strip()[:3000])
         print('=> %s' % ('STILL DISAGREES with the oracle' if code == 1 else 'agrees with the oracle on this tree' if code == 0 else 'replay error'))
